@@ -1189,6 +1189,14 @@ impl CodegenContext {
                             .into());
                     };
 
+                    // Code that is only analysed (an untaken branch, a macro that is never invoked) stays in the dummy
+                    // segment: it must not end up in a real one
+                    let segment_id = if self.current_segment == Some(Identifier::new("$dummy")) {
+                        Identifier::new("$dummy")
+                    } else {
+                        segment_id
+                    };
+
                     match block {
                         Some(block) => {
                             let old_segment =
@@ -1352,12 +1360,18 @@ impl CodegenContext {
             return f(self);
         }
 
+        // (an outer level may have switched away from the dummy segment it still needs: then it is not ours to remove)
         let prev_segment = self.current_segment.clone();
-        self.segments
-            .insert("$dummy".into(), Segment::new(SegmentOptions::default()));
+        let had_dummy = self.segments.contains_key(&Identifier::new("$dummy"));
+        if !had_dummy {
+            self.segments
+                .insert("$dummy".into(), Segment::new(SegmentOptions::default()));
+        }
         self.current_segment = Some(Identifier::new("$dummy"));
         let result = f(self);
-        self.segments.remove(&Identifier::new("$dummy"));
+        if !had_dummy {
+            self.segments.remove(&Identifier::new("$dummy"));
+        }
         self.current_segment = prev_segment;
         result
     }
